@@ -7,6 +7,7 @@ import numpy as np
 from . import Violation, HarnessError
 from .line import Monitor, leaves, leaf_parts, INF
 from .explorer import snapshot, restore
+from .linejobs import monitor
 
 from simprocesd.model.factory_floor import (Batch, PartHandler, PartFlowController, DecisionGate,
                                             PartBatcher, PartProcessor, Source, Buffer, Sink)
@@ -28,6 +29,7 @@ def held_items(dev):
     return out
 
 
+@monitor('census')
 class Census(Monitor):
     '''C02: every generated part is in exactly one place; single slots; budget.'''
     prop = 'C02'
